@@ -63,6 +63,7 @@ type PConn struct {
 	halfCut  bool  // cut towards the client only: what was received keeps flowing to the server
 	closed   bool
 	release  chan struct{}
+	rstServer bool         // Kill resets the server leg (Proxy.rstServer at accept time)
 	Done     chan struct{} // closed when the client->server direction ended
 	LocalAddr string       // proxy-side local address of the server leg (= RemoteAddr seen by the server)
 }
@@ -76,6 +77,20 @@ type Proxy struct {
 	refuse  bool
 	closed  bool
 	wg      sync.WaitGroup
+	// rstServer: Kill resets the server leg too (default: FIN).  A system whose peer goes away with FIN and without the
+	// zero-length close frame keeps the connection's reader actor /@remoting/accept-<peer ip:port> registered for ever
+	// (tcp_connection.go onReadConn returns on io.EOF); when the kernel hands the same ephemeral port to a later
+	// proxy->system connection, ServerActor.onConnection's ActorOf fails ("actor already exists"), nobody reads that
+	// connection and everything sent over it is lost (finding, see notes/repro_accept_name_collision).  The C15
+	// scenarios are about operations over a healthy link: their proxies reset, so no such reader actor is left behind.
+	rstServer bool
+}
+
+// SetResetServer: see Proxy.rstServer
+func (p *Proxy) SetResetServer(on bool) {
+	p.mu.Lock()
+	p.rstServer = on
+	p.mu.Unlock()
 }
 
 func NewProxy(target string) (*Proxy, error) {
@@ -174,7 +189,7 @@ func (p *Proxy) acceptLoop(ln net.Listener) {
 			return
 		}
 		idx := len(p.conns)
-		pc := &PConn{Idx: idx, Plan: p.planFn(idx), client: c, release: make(chan struct{}), Done: make(chan struct{})}
+		pc := &PConn{Idx: idx, Plan: p.planFn(idx), client: c, release: make(chan struct{}), Done: make(chan struct{}), rstServer: p.rstServer}
 		pc.cutAt = pc.Plan.CutAfter
 		p.conns = append(p.conns, pc)
 		target := p.target
@@ -205,7 +220,11 @@ func (c *PConn) Kill(reset bool) {
 		c.client.Close()
 	}
 	if c.server != nil {
-		c.server.Close()
+		if c.rstServer {
+			rst(c.server)
+		} else {
+			c.server.Close()
+		}
 	}
 }
 
